@@ -1,6 +1,40 @@
 """C10 unit (Verus): printer and parser of miniscripts use the SAME notation, node by node.
 
-(stage 1: prelude, oracle, printer side)
+Oracle = the Miniscript specification's notation: NAME(ARG,...,ARG) per fragment (threshold first for thresh / multi*, then the arguments in
+order), `0` / `1` bare, a run of wrapper letters a s c t d v j n l u followed by `:`, and the sugar list  pk(K) = c:pk_k(K), pkh(K) = c:pk_h(K),
+and_n(X,Y) = andor(X,Y,0), t:X = and_v(X,1), l:X = or_i(0,X), u:X = or_i(X,0).  It is written down twice, independently:
+    printer's side   `frag(t)` + `display_children(t)` (table FRAGS / oracle of units/c19_ord.py, imported) and `ntn(t)`: the token sequence
+                     Name | WrapChar | Colon | Open | Close | Comma | Key | Num | Hash ... of a fragment (tokens = Tok::Str / Tok::Disp);
+    reader's side    `denote(NAME, args)`: the VALUE a name applied to written arguments stands for, `wrap_tree(letters, x)` for wrapper runs.
+Values are compared by `atree` (fragment kind, thresholds, keys, hashes, lock times, sub-expressions in place) = what PartialEq of Miniscript decides.
+
+Part 1  PRINTER  src/miniscript/display.rs: `Terminal::fragment_name`, `is_wrapper`, `DisplayNode::{as_node, nary_len, nary_index}` against frag /
+        is_wrap_frag / display_children; the body of the `for item in ..verbose_pre_order_iter()` loop of `conditional_fmt` verbatim as
+        `conditional_fmt_step` with `f.write_str` / `fmt::Display::fmt` appending to a ghost token log: one visit (node, k children done) writes
+        step_toks = its share of the notation; lemma `printed_is_notation`: the shares in verbose pre-order add up to `ntn(t)`.
+Part 2  PARSER   the HEAD of `impl FromTree for Miniscript { fn from_tree }` in src/miniscript/mod.rs (everything before what units/c12_from_tree.py
+        verifies): the arm table (one case per name of the notation: `from_tree_step__<Frag>.builds_what_the_name_denotes`), the nested helper
+        `binary` (one instance per call site), the wrapper loop (`from_tree_wrap_step.letter_<c>_builds_<Frag>`, `from_tree_wrap_loop`), the two
+        closure shapes of verify_threshold, `verify_terminal_parent / verify_after / verify_older` with the value they hand on, the list of names
+        the reader knows (`from_tree_name_known`), and the result stack: `from_tree_head` = the loop as a verified index loop with
+        INVARIANT stack.len() == mpending(i); no `pop().unwrap()`, `parent().unwrap()`, `assert_eq!(stack.len(), 1)` can fire (C11).
+Part 3  ROUND TRIP (spec level, machine-checked): `printed_form_denotes_the_node`: denote(frag(t), display_children(t)) == atree(t) for every
+        fragment kind incl. all sugar; `roundtrip_node`; `printed_name_selects_one_arm` (names pairwise different: c19_ord's frag_names_distinct);
+        `wrapper_letters_agree`.
+
+RED on the unchanged tree (genuine, reproduced against the crate; kept):
+    c10_notation.Miniscript::from_tree_name_known.reads_the_printed_name.RawPkH    the printer writes a bare key-hash fragment as `expr_raw_pk_h(H)`; the
+        reader has no such arm ("unrecognized name 'expr_raw_pk_h'")
+    c10_notation.Miniscript::from_tree_step__ExprRawPkh.builds_what_the_name_denotes   the printer writes c:<key hash> as `expr_raw_pkh(H)` (after the
+        pattern pk_h / pkh); the reader's arm "expr_raw_pkh" builds the BARE key-hash fragment (type K, no c:)
+  input: Miniscript::<PublicKey, Segwitv0>::from_str_with_validation_params("c:expr_raw_pkh(H)", allow_raw_pkh) is Ok(ms); ms.to_string() ==
+  "expr_raw_pkh(H)"; parsing that: Err("script has type K, which is not allowed for a top-level Miniscript").  Same for every script decoded from
+  DUP HASH160 <H> EQUALVERIFY CHECKSIG.  "c:and_v(v:pk(K),expr_raw_pkh(H))" parses, prints as "c:and_v(v:pk(K),expr_raw_pk_h(H))", which does not parse.
+
+NOT decided here (the rest of C10's text round trip for miniscripts): `expression::Tree::from_str` turns the printed punctuation back into the tree
+(node name = letters + ':' + NAME, children = the arguments in order; assumed shape: wf_tree / wf_chain); Display <-> FromStr of keys, hashes, numbers
+and lock times (`val_of` / `spec_from_str` / `spec_parse_num` are uninterpreted); core::fmt; that a re-parse is ACCEPTED (type check / context check
+in from_ast are arbitrary verdicts here); descriptors, policies, keys.
 """
 import re
 
@@ -22,7 +56,38 @@ DISPLAY = "src/miniscript/display.rs"
 MSMOD = "src/miniscript/mod.rs"
 ITER = "src/iter/tree.rs"
 
-DROPPED = []
+DROPPED = [
+    "conditional_fmt: the `for item in DisplayNode::Node(initial_type, self).verbose_pre_order_iter()` loop and the choice of `initial_type` are dropped; the loop body is cut verbatim "
+    "into conditional_fmt_step(item, display_types, f) (R16, ends with `Ok(())`; a break / continue / return in the body -> UNDECIDED).  Composition: spec `vfrom` = the token image of the "
+    "`verbose` oracle of units/c00_tree.py (which PROVES that VerbosePreOrderIter drains to it, with n_children_yielded / is_complete / parent as the step's precondition states); "
+    "lemma printed_is_notation: vfrom(t) == ntn(t).  That DisplayNode's TreeLike::children are achildren(dabs(..)) is the as_node clause of this unit",
+    "core::fmt (R7): `fmt::Formatter` -> struct with a ghost token log; `f.write_str(s)` appends Tok::Str(s); `fmt::Display::fmt(x, f)` / `fmt::Debug::fmt(x, f)` -> associated functions of "
+    "marker types appending Tok::Disp(val_of(x)) / Tok::Dbg(val_of(x)) (val_of uninterpreted); only DisplayTypes::None (= Display, what is parsed back) is claimed, the Debug modes are "
+    "verified for panic-freedom only",
+    "R3-ref: `DisplayNode::Key(ref pk)` etc. (payload is itself a reference) -> `DisplayNode::Key(pk)`: std `impl Display for &T` forwards to T",
+    "is_wrapper: `self.fragment_name().len()` -> str_len_(self.fragment_name()) (R7-std: byte length = character count for ASCII)",
+    "impl TreeLike for DisplayNode: as_node / nary_len / nary_index are verified as inherent methods; `Self::NaryChildren` -> `NaryChildren<'a, Pk, Ctx>` (R7), as in c19_ord",
+    "Miniscript::from_tree: the TAIL (from `let ret = stack.pop().unwrap()`) is units/c12_from_tree.py's; here the HEAD: signature `fn from_tree_head(root) -> Result<Vec<Arc<Miniscript>>, Error>` "
+    "= head text + the tail's first statement `assert_eq!(stack.len(), 1);` (-> assert!(a == b)) + `Ok(stack)`",
+    "from_tree: `for (n, node) in root.pre_order_iter().enumerate().rev() { BODY }` -> index loop from root.rightmost_descendant_idx() down to root.index with `n = i - root.index` (R8, technique of "
+    "c11_policy_parse; texts of pre_order_iter / next_back checked), BODY verbatim in from_tree_step(n, node, &mut stack) (R16; `continue;` -> `return Ok(());`, `&mut stack` -> `stack`)",
+    "from_tree: `match frag_name { \"lit\" => A, .., x => D }` -> `(if frag_name == \"lit\" { A } else .. else { let x = frag_name; D })` in arm order, `matches!(s, \"a\" | \"b\")` -> `(s == \"a\" || s == \"b\")` "
+    "(R17: Verus knows for a literal PATTERN only that a taken arm implies equality, not the converse; for `==` both).  The list of literal patterns alone is also emitted as "
+    "from_tree_name_known (arm bodies replaced by true / false, R9)",
+    "from_tree: nested `fn binary(.., termfn: fn(..) -> Terminal)` -> one instance binary__<arm> per call site with `termfn(A, B)` replaced by the call site's fourth argument applied to (A, B) "
+    "(R6; a closure `|x, y| BODY` is beta-reduced to `{ let x = A; let y = B; BODY }`: arguments are evaluated left to right either way); its generics are those of the enclosing impl",
+    "from_tree: `for ch in frag_wrap.bytes().rev() { BODY }` -> from_tree_wrap_loop (index loop over as_bytes(), last to first) calling from_tree_wrap_step(ch, new) = BODY verbatim (R8 + R16)",
+    "from_tree: `E.map_err(From::from).map_err(Error::Parse)` -> map_err_tree_(E) (verified definition); `node.verify_X(..).map(Self::f).map_err(Error::Parse)` -> `match .. { Ok(x_) => Ok(Self::f(x_)), "
+    "Err(e_) => Err(Error::Parse(e_)) }`; `node.verify_threshold(CLOSURE).map(Terminal::V).and_then(Self::from_ast)` -> `match node.verify_threshold__<shape>(..) { Ok(x_) => Self::from_ast(Terminal::V(x_)), "
+    "Err(e_) => Err(e_) }` (R14: definitions of Result::map / map_err / and_then); `Self::TRUE / FALSE` -> `Self::TRUE() / FALSE()` (R12); `x.to_owned()` / `x.into()` -> stubs; `crate::` / `expression::` dropped (R7)",
+    "verify_threshold: two call-site instances with the closure body inlined (R16, machinery of c11_policy_parse: ThresholdTail turns `.and_then(|t| t.translate_by_index(|_| BODY))` into an index loop): "
+    "verify_threshold__pop (`|_| Ok(stack.pop().unwrap())`, stack as &mut parameter) and verify_threshold__keys (`|sub| sub.verify_terminal(\"public_key\").map_err(Error::Parse)`, generic in T); any other closure -> UNDECIDED",
+    "from_tree_step is verified once per name of the notation (cases=; 27 names + `other`) under the precondition `the node's name after ':' is NAME`; the frame calls an external_body twin carrying the shared clauses",
+    "Pk: FromStrKey -> Pk: MiniscriptKey (the FromStr bounds are not needed: verify_terminal::<T> is a stub returning spec_from_str::<T>(name))",
+    "ASSUMED about the tree handed in: wf_tree (c11_policy_parse MODEL) + wf_chain (sibling chain of a node = the nodes naming it as parent) + node names are ASCII; ASSUMED traversal contract for the VALUE "
+    "clauses: when a node is visited the results of its sub-expressions are the top entries of the stack, first child on top (children are processed right to left, each pushes one: the frame clauses "
+    "entries_below_the_popped_ones_untouched + the length invariant are proved, the positional statement is not)",
+]
 
 # the Miniscript specification's wrapper letters (a s c t d v j n l u), mapped to ghost names through c19_ord's table
 SPEC_WRAPPER_LETTERS = "asctdvjnlu"
@@ -458,35 +523,82 @@ spec fn wrappers_known(ws: Seq<u8>) -> bool { forall|j: int| 0 <= j < ws.len() =
 
 
 def roundtrip_lemmas():
-    def hint(n):
-        if n == "Thresh":
-            return ("{ let th = t->Thresh_0; let dc = display_children(t); assert(dc.len() == 1 + th.inner@.len()); lemma_aview(dc, 0);\n"
-                    "              assert forall|i: int| 0 <= i < th.inner@.len() implies aview(dc)[i + 1] == AArg::Node(atree(th.inner@[i].node)) by { lemma_aview(dc, i + 1); }\n"
-                    "              assert(denote(frag(t), aview(dc)).kids =~= atree(t).kids); }")
-        if n in MULTIS:
-            return ("{ let th = t->%s_0; let dc = display_children(t); assert(dc.len() == 1 + th.inner@.len()); lemma_aview(dc, 0);\n"
-                    "              assert forall|i: int| 0 <= i < th.inner@.len() implies aview(dc)[i + 1] == AArg::<Pk>::Key(th.inner@[i]) by { lemma_aview(dc, i + 1); }\n"
-                    "              assert(denote(frag(t), aview(dc)).payload->Keys_1 =~= th.inner@); }" % n)
-        return ("{ let dc = display_children(t); if dc.len() > 0 { lemma_aview(dc, 0); } if dc.len() > 1 { lemma_aview(dc, 1); } if dc.len() > 2 { lemma_aview(dc, 2); }\n"
-                "              assert(denote(frag(t), aview(dc)).kids =~= atree(t).kids); }")
-    cases = "\n".join("        Frag::%s => %s" % (n, hint(n)) for n, _ in FRAGS)
-    l0 = r"""
+    MS = "Arc<Miniscript<Pk, Ctx>>"
+    N = lambda e: "ADisp::<Pk, Ctx>::Node(%s.node)" % e
+    # (frag the printer chooses, params, condition, constructor, the argument list the printer shows, extra hints)
+    cases = [("True", "", "true", "Terminal::<Pk, Ctx>::True", [], ""), ("False", "", "true", "Terminal::<Pk, Ctx>::False", [], "")]
+    for v, ty, a in (("PkK", "Pk", "Key"), ("PkH", "Pk", "Key"), ("RawPkH", "hash160::Hash", "RawKeyHash"), ("After", "AbsLockTime", "After"), ("Older", "RelLockTime", "Older"),
+                     ("Sha256", "Pk::Sha256", "Sha256"), ("Hash256", "Pk::Hash256", "Hash256"), ("Ripemd160", "Pk::Ripemd160", "Ripemd160"), ("Hash160", "Pk::Hash160", "Hash160")):
+        cases.append((v, "p: %s" % ty, "true", "Terminal::<Pk, Ctx>::%s(p)" % v, ["ADisp::<Pk, Ctx>::%s(p)" % a], ""))
+    for v in UNARY_W:
+        if v != "Check":
+            cases.append((v, "x: " + MS, "true", "Terminal::%s(x)" % v, [N("x")], ""))
+    D2 = "reveal_with_fuel(atree, 2); "
+    cases.append(("Pk", "x: " + MS, "x.node is PkK", "Terminal::Check(x)", ["ADisp::<Pk, Ctx>::Key(x.node->PkK_0)"], D2 + "assert(atree(x.node).kids =~= Seq::empty());"))
+    cases.append(("Pkh", "x: " + MS, "x.node is PkH", "Terminal::Check(x)", ["ADisp::<Pk, Ctx>::Key(x.node->PkH_0)"], D2 + "assert(atree(x.node).kids =~= Seq::empty());"))
+    cases.append(("ExprRawPkh", "x: " + MS, "x.node is RawPkH", "Terminal::Check(x)", ["ADisp::<Pk, Ctx>::RawKeyHash(x.node->RawPkH_0)"], D2 + "assert(atree(x.node).kids =~= Seq::empty());"))
+    cases.append(("Check", "x: " + MS, "!(x.node is PkK) && !(x.node is PkH) && !(x.node is RawPkH)", "Terminal::Check(x)", [N("x")], ""))
+    XY = "x: %s, y: %s" % (MS, MS)
+    cases.append(("T", XY, "y.node is True", "Terminal::AndV(x, y)", [N("x")], D2 + "assert(atree(y.node).kids =~= Seq::empty());"))
+    cases.append(("AndV", XY, "!(y.node is True)", "Terminal::AndV(x, y)", [N("x"), N("y")], ""))
+    for v in ("AndB", "OrB", "OrD", "OrC"):
+        cases.append((v, XY, "true", "Terminal::%s(x, y)" % v, [N("x"), N("y")], ""))
+    cases.append(("U", XY, "y.node is False", "Terminal::OrI(x, y)", [N("x")], D2 + "assert(atree(y.node).kids =~= Seq::empty());"))
+    cases.append(("L", XY, "!(y.node is False) && x.node is False", "Terminal::OrI(x, y)", [N("y")], D2 + "assert(atree(x.node).kids =~= Seq::empty());"))
+    cases.append(("OrI", XY, "!(y.node is False) && !(x.node is False)", "Terminal::OrI(x, y)", [N("x"), N("y")], ""))
+    XYZ = XY + ", z: " + MS
+    cases.append(("AndN", XYZ, "z.node is False", "Terminal::AndOr(x, y, z)", [N("x"), N("y")], D2 + "assert(atree(z.node).kids =~= Seq::empty());"))
+    cases.append(("AndOr", XYZ, "!(z.node is False)", "Terminal::AndOr(x, y, z)", [N("x"), N("y"), N("z")], ""))
+    out = r"""
 proof fn lemma_aview<Pk: MiniscriptKey, Ctx: ScriptContext>(s: Seq<ADisp<Pk, Ctx>>, i: int)
     requires 0 <= i < s.len(),
     ensures aview(s).len() == s.len(), aview(s)[i] == aarg(s[i]),
 {}
 """
+    GOAL = "denote(frag(t), aview(display_children(t))) == atree(t)"
+    for f, params, cond, ctor, dc, extra in cases:
+        out += ("#[verifier::spinoff_prover]\nproof fn printed_%s<Pk: MiniscriptKey, Ctx: ScriptContext>(%s)\n    requires %s,\n    ensures ({ let t = %s; frag(t) == Frag::%s && %s }),\n{\n"
+                "    %s\n    let t = %s; let dc = display_children(t);\n    assert(dc =~= %s);\n    %s\n    assert(denote(frag(t), aview(dc)).kids =~= atree(t).kids);\n}\n"
+                % (f, params, cond, ctor, f, GOAL, extra, ctor, ("seq![%s]" % ", ".join(dc)) if dc else "Seq::<ADisp<Pk, Ctx>>::empty()",
+                   " ".join("lemma_aview(dc, %d);" % i for i in range(len(dc)))))
+    nary = [("Thresh", "Threshold<%s, 0>" % MS, "Node(th.inner@[i].node)", "AArg::Node(atree(th.inner@[i].node))", "assert(denote(frag(t), aview(dc)).kids =~= atree(t).kids);")]
+    for v in MULTIS:
+        nary.append((v, "Threshold<Pk, %s>" % ("MAX_PUBKEYS_PER_MULTISIG" if "A" not in v else "MAX_PUBKEYS_IN_CHECKSIGADD"), "Key(th.inner@[i])", "AArg::<Pk>::Key(th.inner@[i])",
+                     "assert(denote(frag(t), aview(dc)).payload->Keys_1 =~= th.inner@); assert(denote(frag(t), aview(dc)).kids =~= atree(t).kids);"))
+    for f, ty, disp, arg, fin in nary:
+        out += ("#[verifier::spinoff_prover]\nproof fn printed_%s<Pk: MiniscriptKey, Ctx: ScriptContext>(th: %s)\n    ensures ({ let t = Terminal::<Pk, Ctx>::%s(th); frag(t) == Frag::%s && %s }),\n{\n"
+                "    let t = Terminal::<Pk, Ctx>::%s(th); let dc = display_children(t);\n"
+                "    assert(dc =~= seq![ADisp::<Pk, Ctx>::K(th.k)] + Seq::new(th.inner@.len(), |i: int| ADisp::<Pk, Ctx>::%s));\n    lemma_aview(dc, 0);\n"
+                "    assert forall|i: int| 0 <= i < th.inner@.len() implies aview(dc)[i + 1] == %s by { lemma_aview(dc, i + 1); }\n    %s\n}\n"
+                % (f, ty, f, f, GOAL, f, disp, arg, fin))
+    if sorted(c[0] for c in cases) + sorted(n[0] for n in nary) != sorted(sorted(n for n, _ in FRAGS if n not in [x[0] for x in nary])) + sorted(n[0] for n in nary):
+        raise Undecided("round-trip case list does not cover c19_ord.FRAGS")
+    l0 = out
     l1 = r"""
 // ROUND TRIP (node level): what the printer writes for a node -- fragment_name() incl. its sugar, the arguments in the order of
-// as_node() -- is read back as the same value, provided the sub-expressions are (aview: sub-expressions by value)
+// as_node() -- is read back as the same value, provided the sub-expressions are (aview: sub-expressions by value).
+// One lemma per name the printer can choose (printed_<Frag>), this one dispatches.
 proof fn printed_form_denotes_the_node<Pk: MiniscriptKey, Ctx: ScriptContext>(t: Terminal<Pk, Ctx>)
     ensures denote(frag(t), aview(display_children(t))) == atree(t),
 {
-    match frag(t) {
-%s
+    match t {
+        Terminal::True => printed_True::<Pk, Ctx>(), Terminal::False => printed_False::<Pk, Ctx>(),
+        Terminal::PkK(p) => printed_PkK::<Pk, Ctx>(p), Terminal::PkH(p) => printed_PkH::<Pk, Ctx>(p), Terminal::RawPkH(p) => printed_RawPkH::<Pk, Ctx>(p),
+        Terminal::After(p) => printed_After::<Pk, Ctx>(p), Terminal::Older(p) => printed_Older::<Pk, Ctx>(p),
+        Terminal::Sha256(p) => printed_Sha256::<Pk, Ctx>(p), Terminal::Hash256(p) => printed_Hash256::<Pk, Ctx>(p),
+        Terminal::Ripemd160(p) => printed_Ripemd160::<Pk, Ctx>(p), Terminal::Hash160(p) => printed_Hash160::<Pk, Ctx>(p),
+        Terminal::Alt(x) => printed_Alt(x), Terminal::Swap(x) => printed_Swap(x), Terminal::DupIf(x) => printed_DupIf(x), Terminal::Verify(x) => printed_Verify(x),
+        Terminal::NonZero(x) => printed_NonZero(x), Terminal::ZeroNotEqual(x) => printed_ZeroNotEqual(x),
+        Terminal::Check(x) => { if frag(t) is Pk { printed_Pk(x) } else if frag(t) is Pkh { printed_Pkh(x) } else if frag(t) is ExprRawPkh { printed_ExprRawPkh(x) } else { printed_Check(x) } },
+        Terminal::AndV(x, y) => { if frag(t) is T { printed_T(x, y) } else { printed_AndV(x, y) } },
+        Terminal::AndB(x, y) => printed_AndB(x, y), Terminal::OrB(x, y) => printed_OrB(x, y), Terminal::OrD(x, y) => printed_OrD(x, y), Terminal::OrC(x, y) => printed_OrC(x, y),
+        Terminal::OrI(x, y) => { if frag(t) is U { printed_U(x, y) } else if frag(t) is L { printed_L(x, y) } else { printed_OrI(x, y) } },
+        Terminal::AndOr(x, y, z) => { if frag(t) is AndN { printed_AndN(x, y, z) } else { printed_AndOr(x, y, z) } },
+        Terminal::Thresh(th) => printed_Thresh::<Pk, Ctx>(th), Terminal::Multi(th) => printed_Multi::<Pk, Ctx>(th), Terminal::SortedMulti(th) => printed_SortedMulti::<Pk, Ctx>(th),
+        Terminal::MultiA(th) => printed_MultiA::<Pk, Ctx>(th), Terminal::SortedMultiA(th) => printed_SortedMultiA::<Pk, Ctx>(th),
     }
 }
-""" % cases
+"""
     l2 = r"""
 // ... hence: the arm selected by the printed name, applied to sub-expressions that already round-tripped (same value child by
 // child, same k / keys / hashes / lock times), rebuilds the value that was printed
@@ -516,7 +628,875 @@ proof fn wrapper_letters_agree(f: Frag)
     %s
 }
 """ % " ".join('reveal_strlit("%s");' % s for _, s in WRAPPERS)
-    return [("lemma_aview", l0), ("printed_form_denotes_the_node", l1), ("roundtrip_node", l2), ("printed_name_selects_one_arm", l3), ("wrapper_letters_agree", l4)]
+    return [("printed_per_name", l0), ("printed_form_denotes_the_node", l1), ("roundtrip_node", l2), ("printed_name_selects_one_arm", l3), ("wrapper_letters_agree", l4)]
+
+
+# =====================================================================================================================
+# PARSER: the head of `impl FromTree for Miniscript { fn from_tree }`
+# =====================================================================================================================
+from units import c05_ctors as K05
+from units import c12_from_tree as F12
+
+FT = "impl:FromTree for Miniscript<Pk, Ctx>/fn:from_tree"
+SPIN = "#[verifier::spinoff_prover]"
+CONST_HINT = C.ghost_at_body_start("proof { lemma_const_trees::<Pk, Ctx>(); }")
+MS_IMPL = "impl<Pk: MiniscriptKey, Ctx: ScriptContext> Miniscript<Pk, Ctx>"
+MSARC = "Arc<Miniscript<Pk, Ctx>>"
+
+MS_SPEC = r"""
+// ================================================================================================================
+// The stack discipline of Miniscript::from_tree (proof-internal; derived from the code).  lo = index of the root
+// of the traversal (never skipped: the code's `n > 0`).
+// ================================================================================================================
+// ASSUMED (with wf_tree): the sibling chain of a node lists exactly the nodes that name it as parent
+spec fn wf_chain(ns: Seq<TreeNode>) -> bool {
+    forall|i: int, c: int| 0 <= i < ns.len() && 0 <= c < ns.len() ==> (par(ns, c) == Some(i as usize) <==> #[trigger] child_seq(ns, i).contains(c))
+}
+spec fn fname(ns: Seq<TreeNode>, p: int) -> Seq<char> { sepname(ns[p].name@, ':') }
+spec fn is_multi_name(s: Seq<char>) -> bool { s == "multi"@ || s == "sortedmulti"@ || s == "multi_a"@ || s == "sortedmulti_a"@ }
+// SKIP RULE: a leaf that is the inner value of a terminal, a key of multi*, or the k of thresh pushes nothing
+spec fn mskip(ns: Seq<TreeNode>, lo: int, c: int) -> bool {
+    c > lo && nch(ns, c) == 0 && (par(ns, c) matches Some(p) && (nch(ns, p as int) == 1 || is_multi_name(fname(ns, p as int)) || (fname(ns, p as int) == "thresh"@ && p + 1 == c)))
+}
+spec fn mvalue_child_of(ns: Seq<TreeNode>, lo: int, i: int) -> spec_fn(int) -> bool { |c: int| par(ns, c) == Some(i as usize) && !mskip(ns, lo, c) }
+// number of children of i that push a value = what node i must pop
+spec fn mnsc(ns: Seq<TreeNode>, lo: int, i: int) -> int { count(mvalue_child_of(ns, lo, i), i + 1, ns.len() as int) as int }
+// the entry of c is on the stack once the nodes >= i have been processed (skipped nodes are leaves: nobody's entry is orphaned)
+spec fn mlive(ns: Seq<TreeNode>, lo: int, i: int) -> spec_fn(int) -> bool { |c: int| !mskip(ns, lo, c) && (par(ns, c) matches Some(p) ==> p < i) }
+// INVARIANT: stack.len() == mpending(i) after the nodes i..=hi have been processed
+spec fn mpending(ns: Seq<TreeNode>, lo: int, i: int, hi: int) -> int { count(mlive(ns, lo, i), i, hi + 1) as int }
+spec fn all_children_leaves(ns: Seq<TreeNode>, i: int) -> bool { forall|j: int| 0 <= j < child_seq(ns, i).len() ==> nch(ns, #[trigger] child_seq(ns, i)[j]) == 0 }
+
+proof fn lemma_ms_names()
+    ensures !is_multi_name("thresh"@),
+{
+    reveal_strlit("thresh"); reveal_strlit("multi"); reveal_strlit("sortedmulti"); reveal_strlit("multi_a"); reveal_strlit("sortedmulti_a");
+    assert("thresh"@.len() == 6 && "multi"@.len() == 5 && "sortedmulti"@.len() == 11 && "multi_a"@.len() == 7 && "sortedmulti_a"@.len() == 13);
+}
+proof fn lemma_mnsc(ns: Seq<TreeNode>, lo: int, i: int)
+    requires wf_tree(ns), wf_chain(ns), 0 <= lo <= i < ns.len(),
+    ensures
+        0 <= mnsc(ns, lo, i) <= nch(ns, i),
+        nch(ns, i) == 1 && nch(ns, i + 1) == 0 ==> mnsc(ns, lo, i) == 0,
+        is_multi_name(fname(ns, i)) && all_children_leaves(ns, i) ==> mnsc(ns, lo, i) == 0,
+        nch(ns, i) != 1 && !is_multi_name(fname(ns, i)) && fname(ns, i) != "thresh"@ ==> mnsc(ns, lo, i) == nch(ns, i),
+        nch(ns, i) >= 2 && fname(ns, i) == "thresh"@ ==> mnsc(ns, lo, i) >= nch(ns, i) - 1,
+        nch(ns, i) >= 2 && fname(ns, i) == "thresh"@ && nch(ns, i + 1) == 0 ==> mnsc(ns, lo, i) == nch(ns, i) - 1,
+{
+    let n = ns.len() as int;
+    assert(wf_node(ns, i));
+    lemma_ms_names();
+    let all = is_child_of(ns, i);
+    let val = mvalue_child_of(ns, lo, i);
+    lemma_count_le(val, all, i + 1, n);
+    if nch(ns, i) == 1 && nch(ns, i + 1) == 0 {
+        assert forall|c: int| i + 1 <= c < n implies !#[trigger] val(c) by { if par(ns, c) == Some(i as usize) { lemma_only_child(ns, i, c); } }
+        lemma_count_zero(val, i + 1, n);
+    }
+    if is_multi_name(fname(ns, i)) && all_children_leaves(ns, i) {
+        assert forall|c: int| i + 1 <= c < n implies !#[trigger] val(c) by {
+            if par(ns, c) == Some(i as usize) {
+                assert(child_seq(ns, i).contains(c));
+                let j = choose|j: int| 0 <= j < child_seq(ns, i).len() && child_seq(ns, i)[j] == c;
+                assert(nch(ns, child_seq(ns, i)[j]) == 0);
+            }
+        }
+        lemma_count_zero(val, i + 1, n);
+    }
+    if nch(ns, i) != 1 && !is_multi_name(fname(ns, i)) && fname(ns, i) != "thresh"@ {
+        lemma_count_le(all, val, i + 1, n);
+    }
+    if nch(ns, i) >= 2 && fname(ns, i) == "thresh"@ {
+        let rest = |c: int| par(ns, c) == Some(i as usize) && c != i + 1;
+        let first = |c: int| c == i + 1;
+        assert forall|c: int| i + 1 <= c < n implies (#[trigger] all(c) <==> (rest(c) || first(c))) && !(rest(c) && first(c)) by {}
+        lemma_count_union(all, rest, first, i + 1, n);
+        lemma_count_first(first, i + 1, n);
+        lemma_count_zero(first, i + 2, n);
+        lemma_count_le(rest, val, i + 1, n);
+        if nch(ns, i + 1) == 0 {
+            lemma_count_le(val, rest, i + 1, n);
+        }
+    }
+}
+// children of a node of the block [lo, rmd(lo)] lie in the block
+proof fn lemma_mnsc_in_block(ns: Seq<TreeNode>, lo: int, i: int)
+    requires wf_tree(ns), 0 <= lo <= i <= rmd(ns, lo), lo < ns.len(),
+    ensures mnsc(ns, lo, i) == count(mvalue_child_of(ns, lo, i), i + 1, rmd(ns, lo) + 1),
+{
+    assert(wf_node(ns, lo));
+    lemma_count_split(mvalue_child_of(ns, lo, i), i + 1, rmd(ns, lo) + 1, ns.len() as int);
+    lemma_count_zero(mvalue_child_of(ns, lo, i), rmd(ns, lo) + 1, ns.len() as int);
+}
+// A: the entries node i pops are on the stack
+proof fn lemma_mpending_covers_pops(ns: Seq<TreeNode>, lo: int, i: int)
+    requires wf_tree(ns), 0 <= lo <= i <= rmd(ns, lo), lo < ns.len(),
+    ensures mpending(ns, lo, i + 1, rmd(ns, lo)) >= mnsc(ns, lo, i),
+{
+    lemma_mnsc_in_block(ns, lo, i);
+    lemma_count_le(mvalue_child_of(ns, lo, i), mlive(ns, lo, i + 1), i + 1, rmd(ns, lo) + 1);
+}
+// B: processing node i changes the stack by 0 (skipped) / 1 - mnsc(i)
+proof fn lemma_mpending_step(ns: Seq<TreeNode>, lo: int, i: int)
+    requires wf_tree(ns), 0 <= lo <= i <= rmd(ns, lo), lo < ns.len(),
+    ensures mpending(ns, lo, i, rmd(ns, lo)) == mpending(ns, lo, i + 1, rmd(ns, lo)) + (if mskip(ns, lo, i) { 0 } else { 1 - mnsc(ns, lo, i) }),
+{
+    let hi = rmd(ns, lo);
+    assert(wf_node(ns, lo));
+    assert(wf_node(ns, i));
+    lemma_mnsc_in_block(ns, lo, i);
+    lemma_count_first(mlive(ns, lo, i), i, hi + 1);
+    let popped = mvalue_child_of(ns, lo, i);
+    assert forall|c: int| i + 1 <= c < hi + 1 implies (#[trigger] mlive(ns, lo, i + 1)(c) <==> (mlive(ns, lo, i)(c) || popped(c))) && !(mlive(ns, lo, i)(c) && popped(c)) by {
+        assert(wf_node(ns, c));
+    }
+    lemma_count_union(mlive(ns, lo, i + 1), mlive(ns, lo, i), popped, i + 1, hi + 1);
+    if mskip(ns, lo, i) {
+        // a skipped node is a leaf: nothing to pop
+        assert forall|c: int| i + 1 <= c < hi + 1 implies !#[trigger] popped(c) by { if par(ns, c) == Some(i as usize) { lemma_has_child(ns, i, c); } }
+        lemma_count_zero(popped, i + 1, hi + 1);
+    }
+}
+// C: when the whole block has been processed only the root's entry is left
+proof fn lemma_mpending_final(ns: Seq<TreeNode>, lo: int)
+    requires wf_tree(ns), 0 <= lo < ns.len(),
+    ensures mpending(ns, lo, lo, rmd(ns, lo)) == 1,
+{
+    let hi = rmd(ns, lo);
+    assert(wf_node(ns, lo));
+    lemma_count_first(mlive(ns, lo, lo), lo, hi + 1);
+    assert forall|c: int| lo + 1 <= c < hi + 1 implies !#[trigger] mlive(ns, lo, lo)(c) by {
+        assert(par(ns, c) is Some && lo <= par(ns, c)->Some_0);
+    }
+    lemma_count_zero(mlive(ns, lo, lo), lo + 1, hi + 1);
+}
+"""
+MS_LEMMAS = ["lemma_ms_names", "lemma_mnsc", "lemma_mnsc_in_block", "lemma_mpending_covers_pops", "lemma_mpending_step", "lemma_mpending_final"]
+
+
+ARGS_SPEC = r"""
+// ---- the arguments of node i as the reader meets them, left to right: the results of the sub-expressions are the top entries
+//      of the result stack, FIRST child on top (the traversal is reversed pre-order: children are processed right to left);
+//      keys / hashes / numbers are what FromStr / parse_num give for the child's name (uninterpreted) ----------------------------
+spec fn stack_trees<Pk: MiniscriptKey, Ctx: ScriptContext>(st: Seq<Arc<Miniscript<Pk, Ctx>>>) -> Seq<ATree<Pk>> { Seq::new(st.len(), |j: int| atree(st[j].node)) }
+spec fn leaf_str(ns: Seq<TreeNode>, i: int) -> Seq<char> { ns[i + 1].name@ }
+spec fn tree_k(ns: Seq<TreeNode>, i: int) -> usize { spec_parse_num(ns[i + 1].name@)->Ok_0 as usize }
+spec fn tree_aargs<Pk: MiniscriptKey>(ns: Seq<TreeNode>, i: int, st: Seq<ATree<Pk>>, f: Frag) -> Seq<AArg<Pk>> {
+    let top = st.len() - 1;
+    match f {
+        Frag::PkK | Frag::PkH | Frag::Pk | Frag::Pkh => seq![AArg::Key(spec_from_str::<Pk>(leaf_str(ns, i))->Some_0)],
+        Frag::RawPkH | Frag::ExprRawPkh => seq![AArg::<Pk>::RawKeyHash(spec_from_str::<hash160::Hash>(leaf_str(ns, i))->Some_0)],
+        Frag::After => seq![AArg::<Pk>::After(spec_abs_from_consensus(spec_parse_num(leaf_str(ns, i))->Ok_0)->Some_0)],
+        Frag::Older => seq![AArg::<Pk>::Older(spec_rel_from_consensus(spec_parse_num(leaf_str(ns, i))->Ok_0)->Some_0)],
+        Frag::Sha256 => seq![AArg::<Pk>::Sha256(spec_from_str::<Pk::Sha256>(leaf_str(ns, i))->Some_0)],
+        Frag::Hash256 => seq![AArg::<Pk>::Hash256(spec_from_str::<Pk::Hash256>(leaf_str(ns, i))->Some_0)],
+        Frag::Ripemd160 => seq![AArg::<Pk>::Ripemd160(spec_from_str::<Pk::Ripemd160>(leaf_str(ns, i))->Some_0)],
+        Frag::Hash160 => seq![AArg::<Pk>::Hash160(spec_from_str::<Pk::Hash160>(leaf_str(ns, i))->Some_0)],
+        Frag::AndV | Frag::AndB | Frag::AndN | Frag::OrB | Frag::OrD | Frag::OrC | Frag::OrI => seq![AArg::Node(st[top]), AArg::Node(st[top - 1])],
+        Frag::AndOr => seq![AArg::Node(st[top]), AArg::Node(st[top - 1]), AArg::Node(st[top - 2])],
+        Frag::Thresh => seq![AArg::<Pk>::K(tree_k(ns, i))] + Seq::new((nch(ns, i) - 1) as nat, |j: int| AArg::Node(st[top - j])),
+        Frag::Multi | Frag::SortedMulti | Frag::MultiA | Frag::SortedMultiA =>
+            seq![AArg::<Pk>::K(tree_k(ns, i))] + Seq::new((nch(ns, i) - 1) as nat, |j: int| AArg::Key(spec_from_str::<Pk>(ns[child_seq(ns, i)[j + 1]].name@)->Some_0)),
+        _ => Seq::empty(),
+    }
+}
+%(shapes)s
+// the wrapper letters in front of the ':' of node i's name, as bytes
+spec fn wbytes(ns: Seq<TreeNode>, i: int) -> Seq<u8> { ascii_bytes(seppref(ns[i].name@, ':')) }
+"""
+
+
+def shapes_lemma():
+    V = {v: i for i, v in enumerate(E.VARIANTS)}
+    MS = "Arc<Miniscript<Pk, Ctx>>"
+    ens, prf, subs = [], [], []
+    def add(name, q, lhs, rhs):
+        args = ", ".join(re.findall(r"\b(\w+): ", q))
+        subs.append("#[verifier::spinoff_prover]\nproof fn shape_%s<Pk: MiniscriptKey, Ctx: ScriptContext>(%s)\n    ensures atree(%s) == %s,\n{ assert(atree(%s).kids =~= %s.kids); }\n"
+                    % (name, q, lhs, rhs, lhs, rhs))
+        if q:
+            ens.append("        forall|%s| #[trigger] atree(%s) == %s," % (q, lhs, rhs))
+            prf.append("    assert forall|%s| #[trigger] atree(%s) == %s by { shape_%s::<Pk, Ctx>(%s); }" % (q, lhs, rhs, name, args))
+        else:
+            ens.append("        atree(%s) == %s," % (lhs, rhs))
+            prf.append("    shape_%s::<Pk, Ctx>();" % name)
+    for v in UNARY_W:
+        add(v, "x: %s" % MS, "Terminal::%s(x)" % v, "anode1::<Pk>(%d, atree(x.node))" % V[v])
+    for v in BIN:
+        add(v, "x: %s, y: %s" % (MS, MS), "Terminal::%s(x, y)" % v, "anode2::<Pk>(%d, atree(x.node), atree(y.node))" % V[v])
+    add("AndOr", "x: %s, y: %s, z: %s" % (MS, MS, MS), "Terminal::AndOr(x, y, z)", "anode3::<Pk>(%d, atree(x.node), atree(y.node), atree(z.node))" % V["AndOr"])
+    for c in ("True", "False"):
+        add(c, "", "Terminal::<Pk, Ctx>::%s" % c, "aleaf::<Pk>(%d, Payload::Plain)" % V[c])
+    for v, ty, pl in (("PkK", "Pk", "Key"), ("PkH", "Pk", "Key"), ("RawPkH", "hash160::Hash", "RawHash"), ("After", "AbsLockTime", "After"), ("Older", "RelLockTime", "Older"),
+                      ("Sha256", "Pk::Sha256", "Sha256"), ("Hash256", "Pk::Hash256", "Hash256"), ("Ripemd160", "Pk::Ripemd160", "Ripemd160"), ("Hash160", "Pk::Hash160", "Hash160")):
+        add(v, "p: %s" % ty, "Terminal::<Pk, Ctx>::%s(p)" % v, "aleaf::<Pk>(%d, Payload::%s(p))" % (V[v], pl))
+    return ("".join(subs) + "// the value of a fragment in terms of the values of its sub-expressions (one unfolding of atree, variant by variant)\n"
+            "proof fn lemma_const_trees<Pk: MiniscriptKey, Ctx: ScriptContext>()\n    ensures\n%s\n{\n%s\n}\n" % ("\n".join(ens), "\n".join(prf)))
+
+
+def frag_literals_lemma():
+    facts = "\n".join('        frag_str(Frag::%s)@ == "%s"@,' % (n, s) for n, s in FRAGS)
+    return r"""
+// the names of the notation as the literals the parser compares with
+proof fn lemma_frag_lits()
+    ensures
+%s
+{}
+""" % facts
+
+
+def node_clause(other, fq):
+    f = other.functions.get(fq)
+    if f is None:
+        raise Undecided("c05_ctors no longer contracts %s" % fq)
+    for _, (k, c) in sorted(f["clauses"].items()):
+        if k == "ensures" and c.tag == "node":
+            return Clause("node", (), c.text)
+    raise Undecided("c05_ctors: clause %s.node not found" % fq)
+
+
+R12_CONSTS = sub("R12", r"\bSelf::(TRUE|FALSE)\b(?!\s*\()", r"Self::\1()", required=False)
+INTO_CHAR = sub("R7-std", r"\b(\w+)\.into\(\)", r"u8_into_char_(\1)", required=False)
+TO_OWNED2 = sub("R7-std", r"\b(\w+(?:\.\w+\(\))*)\.to_owned\(\)", r"str_to_owned_(\1)", required=False)
+R14_TREE = sub("R14-map_err", r"(\b\w+(?:\s*\.\s*\w+\((?:[^()]*)\))+)\s*\.map_err\(From::from\)\s*\.map_err\(Error::Parse\)", r"map_err_tree_(\1)", required=False)
+R14_LEAF = sub("R14-map", r"(\bnode\s*\.\s*verify_\w+\([^()]*\))\s*\.map\(Self::(\w+)\)\s*\.map_err\(Error::Parse\)",
+               r"(match \1 { Ok(x_) => Ok(Self::\2(x_)), Err(e_) => Err(Error::Parse(e_)) })", required=False)
+
+
+def split_top_commas(text):
+    out, depth, cur = [], 0, ""
+    i = 0
+    while i < len(text):
+        ch = text[i]
+        if ch in "([{":
+            c = match_close(text, i)
+            cur += text[i:c + 1]
+            i = c + 1
+            continue
+        if ch == "|" and not cur.strip():
+            c = text.index("|", i + 1)
+            cur += text[i:c + 1]
+            i = c + 1
+            continue
+        if ch == "," and depth == 0:
+            out.append(cur.strip())
+            cur = ""
+        else:
+            cur += ch
+        i += 1
+    if cur.strip():
+        out.append(cur.strip())
+    return out
+
+
+class Head:
+    """the pieces of Miniscript::from_tree's head, cut mechanically"""
+
+    def __init__(self, repo):
+        reg = repo.at(MSMOD, FT)
+        self.reg = reg
+        text = drop_vis(strip_docs(reg.text)).strip("\n")
+        sig, head, tail = F12.split_from_tree(text)
+        if re.search(r"\breturn\b(?!\s+Err\()", head):
+            raise Undecided("Miniscript::from_tree: the head has a `return` that is not `return Err(..)`")
+        m = re.match(r"\s*assert_eq!\(stack\.len\(\),\s*1\);", tail)
+        if not m:
+            raise Undecided("Miniscript::from_tree: the tail does not start with `assert_eq!(stack.len(), 1);`")
+        self.final_assert = m.group(0).strip()
+        # the nested helper `fn binary`
+        i = head.find("fn binary")
+        if i < 0:
+            raise Undecided("Miniscript::from_tree: nested `fn binary` not found")
+        h2, ret, where, body = split_fn(head[i:])
+        bopen = i + len(head[i:]) - len(body)
+        bclose = match_close(head, bopen)
+        self.binary = head[i:bclose + 1]
+        head = re.sub(r"#\[allow\([^\]]*\)\]\s*$", "", head[:i].rstrip()) + "\n" + head[bclose + 1:]
+        m = re.search(r"\bfor\s+\((\w+),\s*(\w+)\)\s+in\s+(\w+)\s*\.pre_order_iter\(\)\s*\.enumerate\(\)\s*\.rev\(\)\s*\{", head)
+        if not m:
+            raise Undecided("Miniscript::from_tree: loop `for (n, node) in ROOT.pre_order_iter().enumerate().rev()` not found")
+        close = match_close(head, m.end() - 1)
+        self.nvar, self.var, self.root = m.group(1), m.group(2), m.group(3)
+        self.before, self.body, self.after = head[:m.start()], head[m.end():close], head[close + 1:]
+        if self.after.strip().strip("}").strip():
+            raise Undecided("Miniscript::from_tree: statements between the fragment loop and the final assert")
+        # the wrapper loop inside the body
+        w = re.search(r"\bfor\s+(\w+)\s+in\s+(\w+)\s*\.bytes\(\)\s*\.rev\(\)\s*\{", self.body)
+        if not w:
+            raise Undecided("Miniscript::from_tree: wrapper loop `for ch in X.bytes().rev()` not found")
+        wclose = match_close(self.body, w.end() - 1)
+        self.wvar, self.wstr = w.group(1), w.group(2)
+        self.wbody = self.body[w.end():wclose]
+        if re.search(r"\b(break|continue)\b", self.wbody) or not re.search(r"\bnew\s*=", self.wbody):
+            raise Undecided("Miniscript::from_tree: wrapper loop body has break / continue or does not assign `new`")
+        self.body = self.body[:w.start()] + "new = Self::from_tree_wrap_loop(%s, new)?;" % self.wstr + self.body[wclose + 1:]
+        if re.search(r"\b(break|for|while|loop)\b", self.body):
+            raise Undecided("Miniscript::from_tree: loop body with break / another nested loop cannot be lambda-lifted")
+        self.body = re.sub(r"\bcontinue\s*;", "return Ok(());", self.body)
+        # the arm table
+        r = Region("<step>", self.body, 0, len(self.body))
+        try:
+            mm = r._find_match("frag_name")
+        except Exception:
+            raise Undecided("Miniscript::from_tree: `match frag_name` not found")
+        self.match_span = (mm.match_start, mm.match_end)
+        self.arms = split_arms(self.body, mm.start, mm.end)
+        for a in self.arms:
+            if a["guard"]:
+                raise Undecided("Miniscript::from_tree: guarded arm in `match frag_name`")
+
+    def arm_kind(self, a):
+        p = a["pat"].strip()
+        m = re.match(r'^"([^"]*)"$', p)
+        if m:
+            return "lit", m.group(1)
+        if re.match(r"^\w+$", p):
+            return "bind", p
+        raise Undecided("Miniscript::from_tree: arm pattern `%s` is neither a string literal nor a binding" % p)
+
+
+def emit_ctors(vf, repo):
+    c05 = K05.build(repo)
+    with vf.block(MS_IMPL):
+        for name in ("pk", "pkh", "pk_k", "pk_h", "expr_raw_pkh", "after", "older", "sha256", "hash256", "ripemd160", "hash160"):
+            vf.fn(MSMOD, K05.MSIMPL + "/fn:" + name, qual="Miniscript", assumed=True, rewrites=K05.R7_TYPES,
+                  contract=Contract(ensures=[node_clause(c05, "Miniscript::" + name)], canary=False))
+        for c in ("TRUE", "FALSE"):
+            repo.at(MSMOD, K05.MSIMPL + "/const:" + c)
+            vf.raw("    // R12: `const %s: Self`\n    #[verifier::external_body] fn %s() -> (r: Self) ensures %s { unimplemented!() }\n" % (c, c, node_clause(c05, "Miniscript::" + c).text))
+        vf.fn(MSMOD, K05.MSIMPL + "/fn:from_ast", qual="Miniscript", assumed=True, rewrites=K05.R7_TYPES,
+              contract=Contract(ensures=[node_clause(c05, "Miniscript::from_ast")], canary=False))
+    vf.trust("Miniscript::{pk, pkh, pk_k, pk_h, expr_raw_pkh, after, older, sha256, hash256, ripemd160, hash160, TRUE, FALSE, from_ast} (external_body): the `node` clause units/c05_ctors.py "
+             "PROVES for each (Clause text taken from that unit's build); from_ast's is proved there under its precondition that the height figure fits u32 (the node is assigned unconditionally)",
+             "proved on the real text in c05_ctors; the type / context verdict of from_ast is left arbitrary here")
+
+
+def emit_binary_instances(vf, H):
+    """R6: one instance of the nested helper `binary` per call site (Verus has no fn pointers); `termfn(A, B)` is replaced by the call
+    site's fourth argument applied to (A, B) -- a path `Terminal::X` directly, a closure `|x, y| BODY` beta-reduced to `{ let x = A; let y = B; BODY }`"""
+    names = []
+    for a in H.arms:
+        kind, name = H.arm_kind(a)
+        m = re.search(r"\bbinary\(", a["body"])
+        if not m:
+            continue
+        if kind != "lit":
+            raise Undecided("from_tree: `binary` called from a non-literal arm")
+        c = match_close(a["body"], m.end() - 1)
+        args = split_top_commas(a["body"][m.end():c])
+        if len(args) != 4 or args[0] != "node" or args[1] != "&mut stack":
+            raise Undecided("from_tree arm %s: unexpected `binary` call shape" % name)
+        termfn = args[3]
+        text = H.binary
+        text, n1 = re.subn(r"fn\s+binary\s*<[^>]*>\s*\(", "fn binary__%s(" % name, text, count=1)
+        text, n2 = re.subn(r"\btermfn\s*:\s*fn\([^)]*\)\s*->\s*Terminal<Pk,\s*Ctx>,?", "", text, count=1)
+        t = re.search(r"\btermfn\(", text)
+        if not (n1 and n2 and t):
+            raise Undecided("from_tree: nested `fn binary` changed shape")
+        tc = match_close(text, t.end() - 1)
+        targs = split_top_commas(text[t.end():tc])
+        if len(targs) != 2:
+            raise Undecided("from_tree: `termfn` is not applied to two arguments")
+        cm = re.match(r"^\|\s*(\w+)\s*,\s*(\w+)\s*\|\s*(.*)$", termfn, flags=re.S)
+        if cm:
+            repl = "{ let %s = %s; let %s = %s; %s }" % (cm.group(1), targs[0], cm.group(2), targs[1], cm.group(3))
+        elif re.match(r"^[\w:]+$", termfn):
+            repl = "%s(%s, %s)" % (termfn, targs[0], targs[1])
+        else:
+            raise Undecided("from_tree arm %s: fourth argument of `binary` is neither a path nor a two-parameter closure" % name)
+        text = text[:t.start()] + repl + text[tc + 1:]
+        text = vf._apply(text, [C.R7_PATHS, C.RANGE_INCL, R14_TREE, R12_CONSTS, CONST_HINT], FT + "/fn:binary")
+        vf.rewrites_used.append("R6-instance binary__%s [%s] @ %s" % (name, termfn[:40], FT))
+        f = NAME2FRAG.get(name)
+        L = "old(stack)@.len()"
+        ens = [Clause("needs_two_children", P11, "r is Ok ==> nch(node.nodes@, node.index as int) == 2"),
+               Clause("pops_two_entries", P1011, "r is Ok ==> final(stack)@ =~= old(stack)@.take(%s - 2)" % L)]
+        if f is not None:
+            ens.append(Clause("builds_%s_of_the_two_children_in_order" % f, P10,
+                              "r is Ok ==> atree(r->Ok_0.node) == denote(Frag::%s, seq![AArg::<Pk>::Node(atree(old(stack)@[%s - 1].node)), AArg::Node(atree(old(stack)@[%s - 2].node))])" % (f, L, L)))
+        else:
+            ens.append(Clause("arm_name_is_not_in_the_notation", P10, "false"))
+        vf.fn_text("Miniscript::from_tree::binary__%s" % name, text, Contract(
+            requires=["node.valid()", "nch(node.nodes@, node.index as int) == 2 ==> old(stack)@.len() >= 2"], ensures=ens, canary=False),
+            PROPS, file=MSMOD, lines=H.reg.lines(), anchor=FT + "/fn:binary@" + name, attrs=SPIN)
+        names.append(name)
+    return names
+
+
+def emit_wrappers(vf, H):
+    step = ("fn from_tree_wrap_step(%s: u8, new_in_: %s) -> Result<%s, Error> {\n        let mut new = new_in_;%s\n        Ok(new)\n    }" % (H.wvar, MSARC, MSARC, H.wbody))
+    step = vf._apply(step, [C.R7_PATHS, R12_CONSTS, INTO_CHAR, CONST_HINT], FT + "/wrapper loop body")
+    vf.rewrites_used.append("R16-loop-body (wrapper loop) @ %s" % FT)
+    ens = [Clause("letter_%s_builds_%s" % (s, n), P10, "%s == %du8 ==> (r matches Ok(v) ==> atree(v.node) == denote(Frag::%s, seq![AArg::<Pk>::Node(atree(new_in_.node))]))" % (H.wvar, ord(s), n))
+           for n, s in WRAPPERS]
+    ens.append(Clause("other_letters_are_rejected", P1011, "wfrag(%s) is None ==> r is Err" % H.wvar))
+    vf.fn_text("Miniscript::from_tree_wrap_step", step, Contract(ensures=ens), PROPS, file=MSMOD, lines=H.reg.lines(), anchor=FT + "/wrapper loop body", attrs=SPIN)
+    loop = r"""fn from_tree_wrap_loop(frag_wrap: &str, new_in_: %(A)s) -> Result<%(A)s, Error> {
+        let mut new = new_in_;
+        let bytes_ = frag_wrap.as_bytes();
+        let ghost ws_ = ascii_bytes(frag_wrap@);
+        proof { assert(bytes_@ =~= ws_); }
+        let mut j_: usize = bytes_.len();
+        proof { assert(ws_.subrange(j_ as int, ws_.len() as int) =~= Seq::<u8>::empty()); }
+        while j_ > 0
+            invariant j_ <= bytes_@.len(), bytes_@ == ws_,
+                wrappers_known(ws_.subrange(j_ as int, ws_.len() as int)),
+                atree(new.node) == wrap_tree(ws_.subrange(j_ as int, ws_.len() as int), atree(new_in_.node)),
+            decreases j_,
+        {
+            j_ -= 1;
+            let %(ch)s = bytes_[j_];
+            let ghost prev_ = new;
+            new = Self::from_tree_wrap_step(%(ch)s, new)?;
+            proof {
+                let cur = ws_.subrange(j_ as int, ws_.len() as int);
+                assert(cur.drop_first() =~= ws_.subrange(j_ + 1, ws_.len() as int));
+                assert(cur[0] == %(ch)s);
+                assert(wfrag(%(ch)s) is Some);
+                assert forall|q: int| 0 <= q < cur.len() implies wfrag(#[trigger] cur[q]) is Some by {
+                    if q > 0 { assert(cur[q] == ws_.subrange(j_ + 1, ws_.len() as int)[q - 1]); }
+                }
+            }
+        }
+        proof { assert(ws_.subrange(0, ws_.len() as int) =~= ws_); }
+        Ok(new)
+    }""" % dict(A=MSARC, ch=H.wvar)
+    vf.rewrites_used.append("R8-bytes-rev-loop `for %s in %s.bytes().rev()` -> index loop over as_bytes(), last to first @ %s" % (H.wvar, H.wstr, FT))
+    vf.fn_text("Miniscript::from_tree_wrap_loop", loop, Contract(requires=["frag_wrap.is_ascii()"], ensures=[
+        Clause("every_letter_is_a_wrapper", P10, "r is Ok ==> wrappers_known(ascii_bytes(frag_wrap@))"),
+        Clause("letters_applied_innermost_last", P10, "r matches Ok(v) ==> atree(v.node) == wrap_tree(ascii_bytes(frag_wrap@), atree(new_in_.node))")]),
+        PROPS, file=MSMOD, lines=H.reg.lines(), anchor=FT + "/wrapper loop", attrs=SPIN)
+
+
+# ---- verify_threshold: one instance per closure shape of the call sites (R16, technique of c11_policy_parse) -----------------------------
+VT = "impl:TreeIterItem<'s>/fn:verify_threshold"
+
+
+def vt_instance_signature(fn_name, generics, param, ret_elem):
+    @rule("R16-instance-signature")
+    def rw(text):
+        new, n = re.subn(r"<\s*const MAX: usize,\s*F: FnMut\(Self\) -> Result<T, E>,\s*T,\s*E: From<ParseThresholdError>,?\s*>", generics, text, count=1)
+        if not n:
+            return None
+        new, n = re.subn(r"\bmut map_child: F,", param, new, count=1)
+        if not n:
+            return None
+        new, n = re.subn(r"->\s*Result<Threshold<T, MAX>, E>", "-> Result<Threshold<%s, MAX>, Error>" % ret_elem, new, count=1)
+        if not n:
+            return None
+        new, n = re.subn(r"\bfn\s+verify_threshold\b", "fn " + fn_name, new, count=1)
+        return new if n else None
+    return rw
+
+
+def vt_inline(param, body):
+    @rule("R16-closure-inlined")
+    def rw(text):
+        n = 0
+        while True:
+            m = re.search(r"\bmap_child\(", text)
+            if not m:
+                return text if n else None
+            c = match_close(text, m.end() - 1)
+            text = text[:m.start()] + "{ let %s = %s; %s }" % (param, text[m.end():c], body) + text[c + 1:]
+            n += 1
+    return rw
+
+
+def threshold_call_sites(H):
+    """[(arm name, closure param, closure body, Terminal variant)] + the rewritten arm bodies"""
+    out = []
+    for a in H.arms:
+        m = re.search(r"\bnode\s*\.verify_threshold\(", a["body"])
+        if not m:
+            continue
+        kind, name = H.arm_kind(a)
+        if kind != "lit":
+            raise Undecided("from_tree: verify_threshold called from a non-literal arm")
+        c = match_close(a["body"], m.end() - 1)
+        clo = a["body"][m.end():c].strip()
+        cm = re.match(r"^\|\s*(\w+)\s*\|\s*(.*)$", clo, flags=re.S)
+        tail = re.match(r"^\s*\.map\(Terminal::(\w+)\)\s*\.and_then\(Self::from_ast\)\s*,?\s*$", a["body"][c + 1:])
+        if not cm or not tail or a["body"][:m.start()].strip():
+            raise Undecided("from_tree arm %s: unexpected verify_threshold call shape" % name)
+        out.append((name, cm.group(1), re.sub(r"\s+", " ", cm.group(2).strip()), tail.group(1)))
+    return out
+
+
+POP_BODY = "Ok(stack.pop().unwrap())"
+KEYS_BODY = 'sub.verify_terminal("public_key").map_err(Error::Parse)'
+
+
+def emit_threshold_instances(vf, H):
+    sites = threshold_call_sites(H)
+    kinds = {}
+    for name, param, body, variant in sites:
+        if param == "_" and body == POP_BODY:
+            kinds[name] = ("pop", variant)
+        elif param == "sub" and body == KEYS_BODY:
+            kinds[name] = ("keys", variant)
+        else:
+            raise Undecided("from_tree arm %s: verify_threshold closure `|%s| %s` is not one of the two modelled shapes" % (name, param, body))
+    NS, I = "self.nodes@", "self.index as int"
+    K_TERMINAL = "r is Ok ==> nch(%s, %s) >= 1 && nch(%s, %s + 1) == 0" % (NS, I, NS, I)
+    K_NUM = "r is Ok ==> spec_parse_num(%s[%s + 1].name@) is Ok && r->Ok_0.k == tree_k(%s, %s)" % (NS, I, NS, I)
+    with vf.block("impl<'s> TreeIterItem<'s>"):
+        if "pop" in [k for k, _ in kinds.values()]:
+            tail = C.ThresholdTail(
+                ghost0="let ghost rem0_ = child_iter.remaining(); let ghost st0_ = stack@;",
+                inv=C.ITER_INV + " n_ <= st0_.len(), stack@ =~= st0_.take(st0_.len() - i_), forall|j_: int| 0 <= j_ < i_ ==> inner_@[j_] == st0_[st0_.len() - 1 - j_],",
+                post="")
+            vf.fn(EXPR, VT, qual="TreeIterItem", rename="verify_threshold__pop", props=PROPS, attrs=SPIN,
+                  rewrites=[vt_instance_signature("verify_threshold", "<const MAX: usize, Pk: MiniscriptKey, Ctx: ScriptContext>", "stack: &mut Vec<%s>," % MSARC, MSARC),
+                            vt_inline("_", POP_BODY), C.ETA, tail, C.VALID_HINT],
+                  contract=Contract(requires=["self.valid()", "nch(%s, %s) >= 1 ==> old(stack)@.len() >= nch(%s, %s) - 1" % (NS, I, NS, I)], ensures=[
+                      Clause("k_child_is_a_terminal", P11, K_TERMINAL),
+                      Clause("pops_one_entry_per_value_child", P1011, "r is Ok ==> final(stack)@ =~= old(stack)@.take(old(stack)@.len() - (nch(%s, %s) - 1))" % (NS, I)),
+                      Clause("sub_expressions_are_the_popped_entries_first_child_on_top", P10,
+                             "r is Ok ==> r->Ok_0.inner@.len() == nch(%s, %s) - 1 && forall|j: int| 0 <= j < r->Ok_0.inner@.len() ==> #[trigger] r->Ok_0.inner@[j] == old(stack)@[old(stack)@.len() - 1 - j]" % (NS, I)),
+                      Clause("k_is_the_number_in_the_first_child", P10, K_NUM),
+                      Clause("threshold_invariant", P10, "r is Ok ==> r->Ok_0.inv()")], canary=False))
+            vf.rewrites_used.append("R16-closure-inlined [%s] @ %s" % (POP_BODY, VT))
+        if "keys" in [k for k, _ in kinds.values()]:
+            tail = C.ThresholdTail(
+                ghost0="let ghost rem0_ = child_iter.remaining();",
+                inv=C.ITER_INV + " forall|j_: int| 0 <= j_ < i_ ==> nch(self.nodes@, rem0_[j_]) == 0 && spec_from_str::<T>(self.nodes@[rem0_[j_]].name@) == Some(inner_@[j_]),",
+                post="proof { let cs_ = child_seq(self.nodes@, self.index as int); assert(rem0_ =~= cs_.skip(1)); "
+                     "assert forall|j_: int| 0 <= j_ < cs_.len() implies nch(self.nodes@, #[trigger] cs_[j_]) == 0 by { if j_ > 0 { assert(cs_[j_] == rem0_[j_ - 1]); } } "
+                     "assert forall|j_: int| 0 <= j_ < inner_@.len() implies spec_from_str::<T>(self.nodes@[cs_[j_ + 1]].name@) == Some(#[trigger] inner_@[j_]) by { assert(cs_[j_ + 1] == rem0_[j_]); } }")
+            vf.fn(EXPR, VT, qual="TreeIterItem", rename="verify_threshold__keys", props=PROPS, attrs=SPIN,
+                  rewrites=[vt_instance_signature("verify_threshold", "<const MAX: usize, T>", "", "T"),
+                            vt_inline("sub", KEYS_BODY), C.ETA, tail, C.VALID_HINT],
+                  contract=Contract(requires=["self.valid()"], ensures=[
+                      Clause("k_child_is_a_terminal", P11, K_TERMINAL),
+                      Clause("all_children_are_leaves", P11, "r is Ok ==> all_children_leaves(%s, %s)" % (NS, I)),
+                      Clause("keys_are_parsed_from_the_children_in_order", P10,
+                             "r is Ok ==> r->Ok_0.inner@.len() == nch(%s, %s) - 1 && forall|j: int| 0 <= j < r->Ok_0.inner@.len() ==> "
+                             "spec_from_str::<T>(%s[child_seq(%s, %s)[j + 1]].name@) == Some(#[trigger] r->Ok_0.inner@[j])" % (NS, I, NS, NS, I)),
+                      Clause("k_is_the_number_in_the_first_child", P10, K_NUM),
+                      Clause("threshold_invariant", P10, "r is Ok ==> r->Ok_0.inv()")], canary=False))
+            vf.rewrites_used.append("R16-closure-inlined [|sub| %s] @ %s" % (KEYS_BODY, VT))
+    return kinds
+
+
+NARY_LEMMAS = r"""
+// the value of thresh / multi* nodes from their components (one unfolding of atree + denote)
+#[verifier::spinoff_prover]
+proof fn lemma_thresh_value<Pk: MiniscriptKey, Ctx: ScriptContext>(th: Threshold<Arc<Miniscript<Pk, Ctx>>, 0>, av: Seq<AArg<Pk>>)
+    requires av.len() == 1 + th.inner@.len(), av[0] == AArg::<Pk>::K(th.k),
+        forall|j: int| 0 <= j < th.inner@.len() ==> #[trigger] av[j + 1] == AArg::Node(atree(th.inner@[j].node)),
+    ensures atree(Terminal::<Pk, Ctx>::Thresh(th)) == denote(Frag::Thresh, av),
+{
+    let t = Terminal::<Pk, Ctx>::Thresh(th);
+    assert(atree(t).kids =~= denote(Frag::Thresh, av).kids);
+}
+"""
+
+
+def nary_lemmas():
+    out = NARY_LEMMAS
+    for v in MULTIS:
+        out += r"""
+#[verifier::spinoff_prover]
+proof fn lemma_%(v)s_value<Pk: MiniscriptKey, Ctx: ScriptContext>(th: Threshold<Pk, %(max)s>, av: Seq<AArg<Pk>>)
+    requires av.len() == 1 + th.inner@.len(), av[0] == AArg::<Pk>::K(th.k),
+        forall|j: int| 0 <= j < th.inner@.len() ==> #[trigger] av[j + 1] == AArg::<Pk>::Key(th.inner@[j]),
+    ensures atree(Terminal::<Pk, Ctx>::%(v)s(th)) == denote(Frag::%(v)s, av),
+{
+    let t = Terminal::<Pk, Ctx>::%(v)s(th);
+    assert(atree(t).kids =~= Seq::empty());
+    assert(denote(Frag::%(v)s, av).payload->Keys_1 =~= th.inner@);
+}
+""" % dict(v=v, max="MAX_PUBKEYS_PER_MULTISIG" if "A" not in v else "MAX_PUBKEYS_IN_CHECKSIGADD")
+    return out
+
+
+def build_step_text(vf, H, kinds, bins):
+    """the loop body as a step function: arm table rewritten to an if-chain (R17), call sites to the instances"""
+    NS, I = "%s.nodes@" % H.var, "%s.index as int" % H.var
+    LO = "(%s.index - %s) as int" % (H.var, H.nvar)
+    chain, pats = [], []
+    for a in H.arms:
+        kind, name = H.arm_kind(a)
+        body = a["body"].strip().rstrip(",")
+        if kind == "lit":
+            pats.append(name)
+            if name in bins:
+                m = re.search(r"\bbinary\(", body)
+                c = match_close(body, m.end() - 1)
+                args = split_top_commas(body[m.end():c])
+                body = body[:m.start()] + "Self::binary__%s(%s, %s, %s)" % (name, args[0], args[1], args[2]) + body[c + 1:]
+            if name in kinds:
+                k, variant = kinds[name]
+                f = NAME2FRAG.get(name)
+                if k == "pop":
+                    hint = ("proof { let ghost st0_ = stack0_; let ghost av_ = tree_aargs::<Pk>(%s, %s, stack_trees(st0_), Frag::%s); "
+                            "assert forall|j: int| 0 <= j < th_.inner@.len() implies #[trigger] av_[j + 1] == AArg::Node(atree(th_.inner@[j].node)) by { assert(th_.inner@[j] == st0_[st0_.len() - 1 - j]); } "
+                            "lemma_thresh_value::<Pk, Ctx>(th_, av_); }" % (NS, I, f)) if f == "Thresh" else ""
+                    body = ("(match %s.verify_threshold__pop(&mut stack) { Ok(x_) => { let ghost th_ = x_; %s Self::from_ast(Terminal::%s(x_)) }, Err(e_) => Err(e_) })" % (H.var, hint, variant))
+                else:
+                    hint = ("proof { let ghost av_ = tree_aargs::<Pk>(%s, %s, stack_trees(stack0_), Frag::%s); "
+                            "assert forall|j: int| 0 <= j < th_.inner@.len() implies #[trigger] av_[j + 1] == AArg::<Pk>::Key(th_.inner@[j]) by { } "
+                            "lemma_%s_value::<Pk, Ctx>(th_, av_); }" % (NS, I, f, f)) if f in MULTIS else ""
+                    body = ("(match %s.verify_threshold__keys() { Ok(x_) => { let ghost th_ = x_; %s Self::from_ast(Terminal::%s(x_)) }, Err(e_) => Err(e_) })" % (H.var, hint, variant))
+            chain.append(('frag_name == "%s"' % name, body))
+        else:
+            chain.append((None, "let %s = frag_name; %s" % (name, body)))
+    if chain[-1][0] is not None or any(c is None for c, _ in chain[:-1]):
+        raise Undecided("Miniscript::from_tree: the catch-all arm of `match frag_name` is not the last one")
+    ifs = "(" + " else ".join(("if %s { %s }" % (c, b)) if c else "{ %s }" % b for c, b in chain) + ")"
+    s, e = H.match_span
+    body = H.body[:s] + ifs + H.body[e:]
+    vf.rewrites_used.append("R17-strmatch `match frag_name { \"lit\" => .. }` -> chain of `frag_name == \"lit\"` tests in arm order @ %s" % FT)
+    # matches!(x, "a" | "b") on strings
+    def matches_rw(m):
+        alts = [x.strip() for x in m.group(2).split("|")]
+        return "(" + " || ".join("%s == %s" % (m.group(1), x) for x in alts) + ")"
+    body = re.sub(r"matches!\(\s*(\w+)\s*,\s*((?:\"[^\"]*\"\s*\|?\s*)+)\)", matches_rw, body)
+    ghost = ("let ghost stack0_ = stack@;\n        proof { lemma_frag_lits(); frag_names_distinct(); lemma_ms_names(); lemma_const_trees::<Pk, Ctx>(); "
+             "assert(wf_node(%s, %s)); assert(wf_node(%s, %s)); lemma_mnsc(%s, %s, %s); }" % (NS, I, NS, LO, NS, LO, I))
+    text = ("fn from_tree_step<'s>(%s: usize, %s: TreeIterItem<'s>, stack: &mut Vec<%s>) -> Result<(), Error> {\n        %s%s\n        Ok(())\n    }"
+            % (H.nvar, H.var, MSARC, ghost, body))
+    text = vf._apply(text, [sub("R16-captured-local", r"&mut stack\b", "stack", required=False), C.R7_PATHS, C.RANGE_INCL, R14_TREE, R14_LEAF, R12_CONSTS, TO_OWNED2,
+                            sub("R10", r"(let parent = \w+\.parent\(\)\.unwrap\(\);)", r"\1\n                proof { assert(wf_node(parent.nodes@, parent.index as int)); }", required=False)],
+                     FT + "/loop body")
+    return text, pats
+
+
+def emit_parser(vf, repo):
+    H = Head(repo)
+    with vf.block(MS_IMPL):
+        bins = emit_binary_instances(vf, H)
+        emit_wrappers(vf, H)
+    kinds = emit_threshold_instances(vf, H)
+    vf.spec_obligation("lemma::nary_values", nary_lemmas(), P10)
+    text, pats = build_step_text(vf, H, kinds, bins)
+    NS, I = "%s.nodes@" % H.var, "%s.index as int" % H.var
+    LO = "(%s.index - %s) as int" % (H.var, H.nvar)
+    # ---- the arm-pattern table: the names the reader knows --------------------------------------------------------------------------
+    table = ("fn from_tree_name_known(frag_name: &str) -> bool {\n        proof { lemma_frag_lits(); frag_names_distinct(); }\n        "
+             + " else ".join('if frag_name == "%s" { true }' % p for p in pats) + " else { false }\n    }")
+    vf.rewrites_used.append("R9-arm-bodies `match frag_name`: patterns verbatim, bodies replaced by true (catch-all: false) @ %s" % FT)
+    with vf.block(MS_IMPL):
+        vf.fn_text("Miniscript::from_tree_name_known", table, Contract(ensures=
+            [Clause("reads_the_printed_name.%s" % n, P10, "frag_name@ == frag_str(Frag::%s)@ ==> r" % n) for n, _ in NONWRAP] +
+            [Clause("reads_only_names_of_the_notation", P10, "r ==> exists|f: Frag| !is_wrap_frag(f) && frag_name@ == #[trigger] frag_str(f)@")]),
+            PROPS, file=MSMOD, lines=H.reg.lines(), anchor=FT + "/match:frag_name/patterns")
+        # ---- the step ----------------------------------------------------------------------------------------------------------------
+        L = "old(stack)@.len()"
+        shared = Contract(
+            requires=["%s.valid()" % H.var, "wf_chain(%s)" % NS, "%s <= %s.index" % (H.nvar, H.var), "%s <= rmd(%s, %s)" % (I, NS, LO), "%s >= mnsc(%s, %s, %s)" % (L, NS, LO, I)],
+            ensures=[
+                Clause("stack_effect_is_one_push_minus_one_pop_per_value_child", P11,
+                       "r is Ok ==> final(stack)@.len() == %s + (if mskip(%s, %s, %s) { 0 } else { 1 - mnsc(%s, %s, %s) })" % (L, NS, LO, I, NS, LO, I)),
+                Clause("entries_below_the_popped_ones_untouched", P1011,
+                       "r is Ok ==> final(stack)@.take(%s - mnsc(%s, %s, %s)) =~= old(stack)@.take(%s - mnsc(%s, %s, %s))" % (L, NS, LO, I, L, NS, LO, I)),
+            ], canary=False)
+        cases = []
+        for n, s in NONWRAP:
+            cases.append((n, "fname(%s, %s) == frag_str(Frag::%s)@" % (NS, I, n), [
+                Clause("builds_what_the_name_denotes", P10,
+                       "r is Ok && !mskip(%s, %s, %s) ==> wrappers_known(wbytes(%s, %s)) && atree(final(stack)@.last().node) == "
+                       "wrap_tree(wbytes(%s, %s), denote(Frag::%s, tree_aargs::<Pk>(%s, %s, stack_trees(old(stack)@), Frag::%s)))" % (NS, LO, I, NS, I, NS, I, n, NS, I, n))]))
+        cases.append(("other", " && ".join("fname(%s, %s) != frag_str(Frag::%s)@" % (NS, I, n) for n, _ in NONWRAP), [
+            Clause("names_outside_the_notation_are_rejected", P1011, "r is Ok ==> mskip(%s, %s, %s)" % (NS, LO, I))]))
+        vf.fn_cases("Miniscript::from_tree_step", text, shared, PROPS, cases, file=MSMOD, lines=H.reg.lines(), anchor=FT + "/loop body", attrs=SPIN)
+        # reachability canaries of the step's precondition (the framework cannot express one for `&mut` parameters): shared + two of the cases
+        for cn, cond, _ in [c for c in cases if c[0] in ("AndV", "Thresh", "other")]:
+            cname = "canary_Miniscript_from_tree_step__%s" % cn
+            pre = ", ".join("(%s)" % c.text.replace("old(stack)@", "stack") for c in shared.requires) + ", (%s)" % cond
+            start = vf._emit("proof fn %s<'s>(%s: usize, %s: TreeIterItem<'s>, stack: Seq<%s>)\n    requires %s,\n    ensures false,\n{}\n" % (cname, H.nvar, H.var, MSARC, pre),
+                             dict(origin="verif", fn=cname, canary_for="Miniscript::from_tree_step__%s" % cn))
+            vf.canaries.append((cname, "Miniscript::from_tree_step__%s" % cn, start, vf._lines))
+        # the step as the frame sees it: the shared clauses (proved case by case above; the cases are exhaustive)
+        h_, r_, w_, b_ = split_fn(text)
+        twin = text[:len(text) - len(b_)] + "{ unimplemented!() }"
+        vf.fn_text("Miniscript::from_tree_step", twin, Contract(requires=[c for c in shared.requires], ensures=list(shared.ensures), canary=False), (),
+                   file=MSMOD, lines=H.reg.lines(), anchor=FT + "/loop body", attrs="#[verifier::external_body]", origin="assumed")
+        del vf.functions["Miniscript::from_tree_step"]
+        # ---- the frame: the loop with the stack invariant, the final assert ---------------------------------------------------------
+        C.expect_text(repo, EXPR, "impl:TreeIterItem<'s>/fn:pre_order_iter", C.EXPECTED_PRE_ORDER_ITER, "R8 (rev pre-order loop)")
+        C.expect_text(repo, EXPR, "impl:DoubleEndedIterator for PreOrderIter<'_>/fn:next_back", C.EXPECTED_NEXT_BACK, "R8 (rev pre-order loop)")
+        R = H.root
+        loop = ("""let it_hi_ = %(R)s.rightmost_descendant_idx();
+        proof { assert(wf_node(%(R)s.ns(), %(R)s.i())); }
+        let mut it_i_: usize = it_hi_ + 1;
+        while it_i_ > %(R)s.index
+            invariant
+                %(R)s.valid(), wf_chain(%(R)s.ns()), it_hi_ == rmd(%(R)s.ns(), %(R)s.i()),
+                %(R)s.index <= it_i_ <= it_hi_ + 1, it_hi_ < %(R)s.ns().len(),
+                stack@.len() == mpending(%(R)s.ns(), %(R)s.i(), it_i_ as int, it_hi_ as int),
+            decreases it_i_,
+        {
+            it_i_ -= 1;
+            let %(n)s = it_i_ - %(R)s.index;
+            let %(v)s = TreeIterItem { nodes: %(R)s.nodes, index: it_i_ };
+            proof { lemma_mpending_covers_pops(%(R)s.ns(), %(R)s.i(), it_i_ as int); }
+            Self::from_tree_step(%(n)s, %(v)s, &mut stack)?;
+            proof { lemma_mpending_step(%(R)s.ns(), %(R)s.i(), it_i_ as int); }
+        }
+        proof { lemma_mpending_final(%(R)s.ns(), %(R)s.i()); }""" % dict(R=R, n=H.nvar, v=H.var))
+        head = ("fn from_tree_head(%s: TreeIterItem) -> Result<Vec<%s>, Error> {%s%s\n        %s\n        Ok(stack)\n    }"
+                % (R, MSARC, H.before, loop, H.final_assert))
+        head = vf._apply(head, [C.R7_PATHS, R14_TREE, C.ASSERT_EQ], FT + "/head")
+        vf.rewrites_used.append("R8/R16-rev-enumerate-preorder-loop @ %s" % FT)
+        vf.fn_text("Miniscript::from_tree_head", head, Contract(requires=["%s.valid()" % R, "wf_chain(%s.nodes@)" % R], ensures=[
+            Clause("exactly_one_result_is_left", P11, "r is Ok ==> r->Ok_0@.len() == 1")], canary=True),
+            PROPS, file=MSMOD, lines=H.reg.lines(), anchor=FT + "/head")
+    vf.trust("Miniscript::from_tree_step (external_body twin called by the frame): the shared clauses of the step", "proved on the real text case by case (from_tree_step__<name>) + from_tree_step__cases_exhaustive")
+    vf.trust("loop rewrite R8: `for (n, node) in root.pre_order_iter().enumerate().rev()` visits (n - root.index, TreeIterItem { nodes: root.nodes, index: n }) for n = root.rightmost_descendant_idx() down to root.index",
+             "texts of pre_order_iter / PreOrderIter::next_back (checked against c11_policy_parse's EXPECTED_*); std: Enumerate over an ExactSizeIterator counts from 0, Rev<I>::next = I::next_back")
+    vf.trust("loop rewrite R8: `for ch in frag_wrap.bytes().rev()` visits the bytes of `frag_wrap.as_bytes()` from the last to the first", "std: str::bytes() iterates as_bytes(); Rev reverses")
+    return H
+
+
+# =====================================================================================================================
+# PRINTER: the notation as a token sequence, and the composition of the per-visit steps
+# =====================================================================================================================
+def notation_tokens():
+    unary = " | ".join("Terminal::%s(x)" % v for v in UNARY_W)
+    binary = " | ".join("Terminal::%s(x, y)" % v for v in BIN)
+    return r"""
+// ---- height of a fragment (the AST is finite) -----------------------------------------------------------------------
+spec fn max2_(a: nat, b: nat) -> nat { if a >= b { a } else { b } }
+spec fn th<Pk: MiniscriptKey, Ctx: ScriptContext>(t: Terminal<Pk, Ctx>) -> nat
+    decreases t,
+{
+    match t {
+        %(unary)s => 1 + th(x.node),
+        %(binary)s => 1 + max2_(th(x.node), th(y.node)),
+        Terminal::AndOr(x, y, z) => 1 + max2_(th(x.node), max2_(th(y.node), th(z.node))),
+        Terminal::Thresh(thr) => 1 + th_max(thr.inner@, thr.inner@.len()),
+        _ => 0,
+    }
+}
+spec fn th_max<Pk: MiniscriptKey, Ctx: ScriptContext>(s: Seq<Arc<Miniscript<Pk, Ctx>>>, n: nat) -> nat
+    decreases s, n,
+{
+    if n == 0 || n > s.len() { 0 } else { max2_(th(s[n - 1].node), th_max(s, (n - 1) as nat)) }
+}
+// ================================================================================================================
+// ORACLE: the text of a fragment as a token sequence (Miniscript specification: NAME(ARG,...,ARG); 0 and 1 bare;
+// a run of wrapper letters followed by ':' and the wrapped fragment).  after_wrapper: the fragment directly follows
+// a wrapper letter (then a non-wrapper starts with ':').
+// ================================================================================================================
+spec fn arg_ntn<Pk: MiniscriptKey, Ctx: ScriptContext>(t: Terminal<Pk, Ctx>, a: ADisp<Pk, Ctx>) -> Seq<Tok>
+    decreases th(t), 0int,
+{
+    match a {
+        ADisp::Node(c) => if th(c) < th(t) { ntn(c, false) } else { Seq::empty() },
+        _ => seq![leaf_tok(a)],
+    }
+}
+// ARG_j , ... , ARG_n
+spec fn args_ntn<Pk: MiniscriptKey, Ctx: ScriptContext>(t: Terminal<Pk, Ctx>, j: int) -> Seq<Tok>
+    decreases th(t), 1 + display_children(t).len() - j,
+{
+    let dc = display_children(t);
+    if j < 0 || j >= dc.len() { Seq::empty() }
+    else { arg_ntn(t, dc[j]) + (if j + 1 < dc.len() { seq![t_comma()] + args_ntn(t, j + 1) } else { Seq::empty() }) }
+}
+spec fn ntn<Pk: MiniscriptKey, Ctx: ScriptContext>(t: Terminal<Pk, Ctx>, after_wrapper: bool) -> Seq<Tok>
+    decreases th(t), 2 + display_children(t).len(),
+{
+    let f = frag(t);
+    let dc = display_children(t);
+    if is_wrap_frag(f) {
+        seq![t_name(f)] + (if dc.len() == 1 && dc[0] is Node && th(dc[0]->Node_0) < th(t) { ntn(dc[0]->Node_0, true) } else { Seq::empty() })
+    } else {
+        (if after_wrapper { seq![t_colon()] } else { Seq::empty() }) + seq![t_name(f)]
+            + (if dc.len() == 0 { Seq::empty() } else { seq![t_open()] + args_ntn(t, 0) + seq![t_close()] })
+    }
+}
+spec fn notation<Pk: MiniscriptKey, Ctx: ScriptContext>(t: Terminal<Pk, Ctx>) -> Seq<Tok> { ntn(t, false) }
+
+// ---- what the verbose pre-order traversal writes (doc of VerbosePreOrderIter, oracle `verbose` of units/c00_tree.py): the node with
+//      k children done, then child k's whole sequence, then the node again with k + 1 children done -- each visit writes step_toks ----
+spec fn varg<Pk: MiniscriptKey, Ctx: ScriptContext>(t: Terminal<Pk, Ctx>, a: ADisp<Pk, Ctx>) -> Seq<Tok>
+    decreases th(t), 0int,
+{
+    match a {
+        ADisp::Node(c) => if th(c) < th(t) { vfrom(c, is_wrap_frag(frag(t)), 0) } else { Seq::empty() },
+        _ => step_toks(a, is_wrap_frag(frag(t)), 0),
+    }
+}
+spec fn vfrom<Pk: MiniscriptKey, Ctx: ScriptContext>(t: Terminal<Pk, Ctx>, pw: bool, k: int) -> Seq<Tok>
+    decreases th(t), 2 + display_children(t).len() - k,
+{
+    let dc = display_children(t);
+    if k < 0 || k > dc.len() { Seq::empty() }
+    else { step_toks(ADisp::Node(t), pw, k) + (if k < dc.len() { varg(t, dc[k]) + vfrom(t, pw, k + 1) } else { Seq::empty() }) }
+}
+""" % dict(unary=unary, binary=binary)
+
+
+COMPOSITION = r"""
+proof fn lemma_th_max<Pk: MiniscriptKey, Ctx: ScriptContext>(s: Seq<Arc<Miniscript<Pk, Ctx>>>, n: nat, i: int)
+    requires 0 <= i < n <= s.len(),
+    ensures th(s[i].node) <= th_max(s, n),
+    decreases n,
+{
+    if i < n - 1 { lemma_th_max(s, (n - 1) as nat, i); }
+}
+// the sub-expressions shown as arguments are smaller
+proof fn lemma_dc_smaller<Pk: MiniscriptKey, Ctx: ScriptContext>(t: Terminal<Pk, Ctx>, j: int)
+    requires 0 <= j < display_children(t).len(), display_children(t)[j] is Node,
+    ensures th(display_children(t)[j]->Node_0) < th(t),
+{
+    if t is Thresh { lemma_th_max(t->Thresh_0.inner@, t->Thresh_0.inner@.len(), j - 1); }
+}
+// a fragment printed as a wrapper letter has exactly one argument, a sub-expression
+proof fn lemma_wrapper_arity<Pk: MiniscriptKey, Ctx: ScriptContext>(t: Terminal<Pk, Ctx>)
+    requires is_wrap_frag(frag(t)),
+    ensures display_children(t).len() == 1, display_children(t)[0] is Node,
+{
+}
+// ARG_j .. ARG_n and the closing parenthesis, as the traversal writes them
+proof fn lemma_args_compose<Pk: MiniscriptKey, Ctx: ScriptContext>(t: Terminal<Pk, Ctx>, pw: bool, j: int)
+    requires !is_wrap_frag(frag(t)), 0 <= j < display_children(t).len(),
+    ensures varg(t, display_children(t)[j]) + vfrom(t, pw, j + 1) =~= args_ntn(t, j) + seq![t_close()],
+    decreases th(t), display_children(t).len() - j,
+{
+    let dc = display_children(t);
+    let n = dc.len() as int;
+    // the argument itself
+    if dc[j] is Node { lemma_dc_smaller(t, j); printed_is_notation(dc[j]->Node_0, false); }
+    assert(varg(t, dc[j]) =~= arg_ntn(t, dc[j]));
+    if j + 1 < n {
+        lemma_args_compose(t, pw, j + 1);
+        assert(step_toks(ADisp::Node(t), pw, j + 1) =~= seq![t_comma()]);
+        assert(vfrom(t, pw, j + 1) =~= seq![t_comma()] + (varg(t, dc[j + 1]) + vfrom(t, pw, j + 2)));
+        assert(args_ntn(t, j) =~= arg_ntn(t, dc[j]) + (seq![t_comma()] + args_ntn(t, j + 1)));
+    } else {
+        assert(step_toks(ADisp::Node(t), pw, n) =~= seq![t_close()]);
+        assert(vfrom(t, pw, n + 1) =~= Seq::<Tok>::empty());
+        assert(vfrom(t, pw, n) =~= seq![t_close()]);
+        assert(args_ntn(t, j) =~= arg_ntn(t, dc[j]));
+    }
+}
+// COMPOSITION: the per-visit shares, in the order of the verbose pre-order traversal, add up to the notation of the fragment
+proof fn printed_is_notation<Pk: MiniscriptKey, Ctx: ScriptContext>(t: Terminal<Pk, Ctx>, pw: bool)
+    ensures vfrom(t, pw, 0) =~= ntn(t, pw),
+    decreases th(t), display_children(t).len() + 1,
+{
+    let f = frag(t);
+    let dc = display_children(t);
+    if is_wrap_frag(f) {
+        lemma_wrapper_arity(t);
+        lemma_dc_smaller(t, 0);
+        printed_is_notation(dc[0]->Node_0, true);
+        assert(vfrom(t, pw, 2) =~= Seq::<Tok>::empty());
+        assert(vfrom(t, pw, 1) =~= Seq::<Tok>::empty());
+        assert(vfrom(t, pw, 0) =~= seq![t_name(f)] + (varg(t, dc[0]) + vfrom(t, pw, 1)));
+    } else if dc.len() == 0 {
+        assert(vfrom(t, pw, 1) =~= Seq::<Tok>::empty());
+    } else {
+        lemma_args_compose(t, pw, 0);
+        assert(vfrom(t, pw, 0) =~= step_toks(ADisp::Node(t), pw, 0) + (varg(t, dc[0]) + vfrom(t, pw, 1)));
+    }
+}
+"""
+COMPOSITION_LEMMAS = ["lemma_th_max", "lemma_dc_smaller", "lemma_wrapper_arity", "lemma_args_compose", "printed_is_notation"]
 
 
 def build(repo):
@@ -529,10 +1509,30 @@ def build(repo):
     vf.spec_obligation("lemma::frag_lens", lemma_frag_facts(reveals), P10)
     emit_printer(vf)
     emit_fmt_step(vf)
+    vf.raw(notation_tokens())
+    vf.raw(COMPOSITION)
+    for l in COMPOSITION_LEMMAS:
+        C._register(vf, l)
+        vf.functions[l]["props"] = P10
     c11 = emit_tree(vf, repo)
     vf.raw(denote_oracle())
     for name, text in roundtrip_lemmas():
         vf.spec_obligation("roundtrip::%s" % name, text, P10)
+    vf.raw(MS_SPEC)
+    vf.trust("wf_chain (spec): ASSUMED, with wf_tree: the sibling chain of a node lists exactly the nodes naming it as parent", "what Tree::from_str builds; not verified")
+    for l in MS_LEMMAS:
+        C._register(vf, l)
+    vf.raw(ARGS_SPEC % dict(shapes=''))
+    vf.spec_obligation('lemma::const_trees', shapes_lemma(), P10)
+    vf.spec_obligation("lemma::frag_lits", frag_literals_lemma(), P10)
+    emit_ctors(vf, repo)
+    emit_parser(vf, repo)
     return vf
+
+
+
+
+
+
 
 
